@@ -203,6 +203,11 @@ impl Model for DefaultModel {
     ) -> bool {
         if let Some(ast_map) = self.model.get_mut(sec) {
             if let Some(ast) = ast_map.get_mut(ptype) {
+                // LinkedHashSet::insert moves an existing entry to the back:
+                // re-adding a stored rule must not reorder the policy
+                if ast.policy.contains(&rule) {
+                    return false;
+                }
                 return ast.policy.insert(rule);
             }
         }
